@@ -37,7 +37,7 @@ def strategy(tier, phase):
     from vlib import rmodel
 
     edit = st.tuples(st.integers(0, 13), st.integers(0, 60), st.integers(0, 60), st.integers(0, 60)).map(list)
-    return st.fixed_dictionaries({"gen": st.just(2), "tape": rmodel.tape_strategy(), "edits": st.lists(edit, max_size=4), "pass": st.integers(0, len(c05.PASSES) - 1),
+    return st.fixed_dictionaries({"gen": st.sampled_from([2, 3, 3]), "tape": rmodel.tape_strategy(), "edits": st.lists(edit, max_size=4), "pass": st.integers(0, len(c05.PASSES) - 1),
                                   "param": st.integers(0, 7), "fault": st.sampled_from([0, 0, 0, 1, 2, 3]), "functional": st.booleans(), "wrap": st.sampled_from([0, 0, 1, 2, 3])})
 
 
@@ -131,7 +131,7 @@ def execute(case):
     name = c05.PASSES[pidx % len(c05.PASSES)]
     analysing = name in ("CheckerPass", "ShapeInferencePass")
     fails = []
-    classes = [name]
+    classes = [name] + sorted("model:" + f for f in features)
     nontrivial = False
     # ---- boundary faults for the analysing passes ------------------------------------------------------
     if analysing:
@@ -141,6 +141,10 @@ def execute(case):
         # order matters: a big one in the middle so that re-registration at the end would be visible
         for v in (small, big, untyped):
             model.graph.initializers.add(v)
+        # sizes around the 1 kB limit below which the ONNX boundary keeps the data in the proto (996, 1000, 1004 bytes)
+        for k_, n_ in enumerate((249, 250, 251)):
+            if (param >> 1) % 2 or k_ == 1:
+                model.graph.initializers.add(ir.Value(name=f"c14_edge{n_}", const_value=ir.Tensor(np.arange(n_, dtype=np.float32), name=f"c14_edge{n_}")))
         if model.graph.initializers and param % 2:
             first = next(iter(model.graph.initializers.values()))
             if not any(first is x for x in model.graph.inputs):
@@ -214,6 +218,22 @@ def execute(case):
         p = [None, lambda q: passes.Sequential(q), lambda q: passes.PassManager([q], steps=2, early_stop=True),
              lambda q: passes.PassManager([q], steps=3, early_stop=False)][wrap](p)
         classes.append(["", "Sequential", "PassManager_early_stop", "PassManager_fixed_steps"][wrap])
+    manual = None
+    if functional and wrap in (2, 3):
+        # documented meaning of PassManager(steps=k, early_stop): the sequence is run k times, each step on the result of
+        # the previous one, stopping early when a step reports no modification.  The inner pass is functional here, so
+        # the same input object can be given to the manual loop without cloning it.
+        try:
+            q = passes.functionalize(c05.make_pass(pidx, param))
+            cur2 = model
+            for _ in range(2 if wrap == 2 else 3):
+                rr = q(cur2)
+                cur2 = rr.model
+                if wrap == 2 and not rr.modified:
+                    break
+            manual = _ser_masked(cur2)
+        except Exception:
+            manual = None
     graphs_before = _all_graphs(model)
     sorted_before = not c12.order_violations(graphs_before)
     b0 = _ser(model)
@@ -251,6 +271,8 @@ def execute(case):
         if not functional and not same_obj:
             fails.append((f"in-place-pass-returned-other-object/{name}", "an in-place pass returned a different Model object"))
         nb = _ser(r.model)
+        if rounds == 1 and manual is not None and nb is not None and _mask_bytes(nb) != manual:
+            fails.append((f"pass-manager-differs-from-manual-rounds/{name}", f"PassManager(steps={2 if wrap == 2 else 3}, early_stop={wrap == 2}) over functionalize({name}) does not give what applying the pass step by step gives"))
         if prev_bytes is not None and nb is None:
             fails.append((f"unserializable-after/{name}", f"{name}: the model could be serialized before round {rounds} and cannot afterwards"))
             break
